@@ -154,6 +154,93 @@ Proof.
   rewrite join_cons2. apply free_app; [exact Ha|]. apply free_app; [exact Hsp|exact IH].
 Qed.
 
+Lemma free_only_at_end (x b : str) : free x b -> only_at_end x b = true.
+Proof.
+  induction b as [|c b IH]; intros H; [apply only_at_end_nil|].
+  apply only_at_end_cons. split; [now apply free_head|].
+  apply IH. eapply free_cons_inv; eauto.
+Qed.
+
+(* ---------- the end of gold_line: split on the word separator, delete the spaces inside
+   the words, join with spaces, utils.strip ---------- *)
+
+Lemma split_go_ws_only (x s : str) : ws_only s ->
+  forall (k : nat) (acc : str), ws_only acc -> Forall ws_only (split_go x s k acc).
+Proof.
+  induction 1 as [|c s Hc Hs IH]; intros k acc Hacc.
+  - cbn [split_go]. constructor; [|constructor]. now apply Forall_rev.
+  - cbn [split_go]. destruct k as [|k]; [|now apply IH].
+    destruct (prefix_b x (c :: s)).
+    + constructor; [now apply Forall_rev|]. apply IH. apply ws_only_nil.
+    + apply IH. now constructor.
+Qed.
+
+Lemma join_ws_only (l : list str) : Forall ws_only l -> ws_only (join [sp] l).
+Proof.
+  induction 1 as [|a l Ha Hl IH]; [apply ws_only_nil|].
+  destruct l as [|b l]; [exact Ha|]. rewrite join_cons2.
+  apply ws_only_app; [exact Ha|]. apply ws_only_app; [apply ws_only_sp|exact IH].
+Qed.
+
+Lemma join_app_ws (toks pieces : list str) : Forall ws_only pieces ->
+  exists w : str, ws_only w /\ join [sp] (toks ++ pieces) = join [sp] toks ++ w.
+Proof.
+  intros Hp. induction toks as [|a toks IH].
+  - exists (join [sp] pieces). split; [now apply join_ws_only|reflexivity].
+  - destruct IH as (w & Hw & E). destruct toks as [|b toks].
+    + cbn [app] in *. destruct pieces as [|q pieces].
+      * exists []. split; [apply ws_only_nil|now rewrite app_nil_r].
+      * rewrite join_cons2. exists ([sp] ++ join [sp] (q :: pieces)). split; [|reflexivity].
+        apply ws_only_app; [apply ws_only_sp|now apply join_ws_only].
+    + exists w. split; [exact Hw|].
+      change ((a :: b :: toks) ++ pieces) with (a :: b :: (toks ++ pieces)).
+      rewrite !join_cons2. change (b :: toks ++ pieces) with ((b :: toks) ++ pieces).
+      rewrite E. now rewrite <- !app_assoc.
+Qed.
+
+Lemma norm_ws_join_ws (toks : list str) (w : str) : Forall tok_ok toks -> ws_only w ->
+  norm_ws (join [sp] toks ++ w) = join [sp] toks.
+Proof.
+  intros H Hw. unfold norm_ws. destruct toks as [|a toks].
+  - cbn [join app].
+    assert (E : strip w = []) by (apply strip_nil_iff; now apply ws_only_forallb).
+    now rewrite E.
+  - rewrite strip_trailing_ws.
+    + now apply collapse_ws_join.
+    + apply join_nonnil; [discriminate|exact H].
+    + apply join_clean_ends; [discriminate|exact H].
+    + exact Hw.
+Qed.
+
+Lemma replace_sp_tok (a : str) : tok_ok a -> replace_all [sp] [] a = a.
+Proof.
+  intros [_ H]. apply replace_all_no_infix. apply free_no_infix; [discriminate|].
+  now apply free_sp, ws_free_not_sp.
+Qed.
+
+Theorem gold_tail (xw : str) (toks : list str) (rest : str) : xw <> [] ->
+  Forall tok_ok toks -> Forall (fun a : str => only_at_end xw a = true) toks -> ws_only rest ->
+  norm_ws (join [sp] (map (replace_all [sp] []) (split_on xw (terminated xw toks ++ rest))))
+  = join [sp] toks.
+Proof.
+  intros Hxw Hok Hoe Hws. unfold terminated.
+  rewrite split_on_joined_rest by assumption. rewrite map_app.
+  rewrite (map_id_Forall (replace_all [sp] []) toks).
+  2:{ eapply Forall_impl; [|exact Hok]. apply replace_sp_tok. }
+  destruct (join_app_ws toks (map (replace_all [sp] []) (split_on xw rest))) as (w & Hw & E).
+  { apply Forall_map. eapply Forall_impl.
+    2:{ unfold split_on. apply split_go_ws_only; [exact Hws|apply ws_only_nil]. }
+    intros a Ha. apply replace_all_ws_only; [apply ws_only_nil|exact Ha]. }
+  rewrite E. now apply norm_ws_join_ws.
+Qed.
+
+Lemma free_words_only_at_end (x : str) (t : utree) :
+  Forall (Forall (Forall (free x))) t -> Forall (fun a : str => only_at_end x a = true) (words_of t).
+Proof.
+  intros H. apply (Forall_impl _ (free_only_at_end x)).
+  apply nested_words; [apply free_concat|exact H].
+Qed.
+
 (* ================= three defined levels ================= *)
 
 Section Views3.
@@ -226,18 +313,17 @@ Section Views3.
     gold_line sep (render sep t ++ ws) = Ok (join [sp] (words_of t)).
   Proof.
     intros ws Hws. unfold gold_line, sep.
-    cbn [sep3 s_word s_syll s_phone Prepare.Model.osep]. f_equal.
+    cbn [sep3 s_word s_syll s_phone Prepare.Model.osep]. cbv zeta. f_equal.
     rewrite (replace_all_render_rest xs [] Hxs xp xs xw
                (or_intror Fsp) (or_introl eq_refl) (or_intror Fsw) t ws nested_s).
     rewrite sub_same, !sub_free by assumption.
     rewrite (replace_all_render_rest xp [] Hxp xp [] xw
                (or_introl eq_refl) (or_intror (free_nil xp)) (or_intror Fpw) t _ nested_p).
     rewrite sub_same, sub_nil, sub_free by assumption.
-    rewrite (replace_all_render_rest xw [sp] Hxw [] [] xw
-               (or_intror (free_nil xw)) (or_intror (free_nil xw)) (or_introl eq_refl) t _ nested_w).
-    rewrite sub_same, sub_nil by assumption.
-    rewrite render_word_only. apply norm_ws_terminated.
+    rewrite render_word_only. apply gold_tail.
+    - exact Hxw.
     - exact (tree_ok_words_tok _ _ _ _ Ht).
+    - apply free_words_only_at_end, nested_w.
     - repeat apply replace_all_ws_only; try exact Hws; try apply ws_only_nil; apply ws_only_sp.
   Qed.
 
@@ -443,16 +529,15 @@ Section Views2.
     gold_line sep (render sep t ++ ws) = Ok (join [sp] (words_of t)).
   Proof.
     intros ws Hws. unfold gold_line, sep.
-    cbn [sep2 s_word s_syll s_phone Prepare.Model.osep]. f_equal.
+    cbn [sep2 s_word s_syll s_phone Prepare.Model.osep]. cbv zeta. f_equal.
     rewrite replace_all_nil_nil, render2_as3.
     rewrite (replace_all_render_rest xp [] Hxp xp [] xw
                (or_introl eq_refl) (or_intror (free_nil xp)) (or_intror Fpw) t _ nested2_p).
     rewrite sub_same, sub_nil, sub_free by assumption.
-    rewrite (replace_all_render_rest xw [sp] Hxw [] [] xw
-               (or_intror (free_nil xw)) (or_intror (free_nil xw)) (or_introl eq_refl) t _ nested2_w).
-    rewrite sub_same, sub_nil by assumption.
-    rewrite render_word_only. apply norm_ws_terminated.
+    rewrite render_word_only. apply gold_tail.
+    - exact Hxw.
     - exact tree2_words_tok.
+    - apply free_words_only_at_end, nested2_w.
     - repeat apply replace_all_ws_only; try exact Hws; try apply ws_only_nil; apply ws_only_sp.
   Qed.
 
@@ -505,15 +590,15 @@ Theorem gold_text_spec (xp xs xw : str) (text : list str) (trees : list utree) :
   gold text (sep3 xp xs xw) = Ok (map (fun t : utree => join [sp] (words_of t)) trees).
 Proof.
   intros Hxp Hxs Hxw Fsp Fsw Fpw H.
-  rewrite (gold_total text (sep3 xp xs xw) xw eq_refl). f_equal.
+  rewrite (gold_total text (sep3 xp xs xw)). f_equal.
   induction H as [|raw text trees Hb _ IH|t ws text trees (Hn & Ht & Hf) Hws _ IH].
   - reflexivity.
-  - cbn [map filter]. rewrite (gold_str_blank _ _ _ Hb). cbn [nonempty]. exact IH.
+  - cbn [map filter]. rewrite (gold_str_blank _ _ Hb). cbn [nonempty]. exact IH.
   - cbn [map filter].
-    assert (E : gold_str (sep3 xp xs xw) xw (render (sep3 xp xs xw) t ++ ws)
+    assert (E : gold_str (sep3 xp xs xw) (render (sep3 xp xs xw) t ++ ws)
                 = join [sp] (words_of t)).
     { pose proof (gold_spec_ws xp xs xw Hxp Hxs Hxw Fsp Fsw Fpw t Ht Hf ws Hws) as G.
-      rewrite (gold_line_some (sep3 xp xs xw) xw _ eq_refl) in G. now injection G. }
+      rewrite gold_line_ok in G. now injection G. }
     rewrite E, (words_join_nonempty xp xs xw t Hn Ht). now rewrite IH.
 Qed.
 
@@ -668,13 +753,6 @@ Qed.
 Definition tree_shape (t : utree) : Prop :=
   Forall (fun w : list (list str) =>
             w <> [] /\ Forall (fun syl : list str => syl <> [] /\ Forall tok_ok syl) w) t.
-
-Lemma free_only_at_end (x b : str) : free x b -> only_at_end x b = true.
-Proof.
-  induction b as [|c b IH]; intros H; [apply only_at_end_nil|].
-  apply only_at_end_cons. split; [now apply free_head|].
-  apply IH. eapply free_cons_inv; eauto.
-Qed.
 
 Lemma free_terminated (x p : str) (toks : list str) :
   free x p -> Forall (free x) toks -> free x (terminated p toks).
@@ -854,19 +932,16 @@ Section ViewsMin.
     gold_line sep (render sep t ++ ws) = Ok (join [sp] (words_of t)).
   Proof.
     intros ws Fsw Fpw Hfw Hws. unfold gold_line, sep.
-    cbn [sep3 s_word s_syll s_phone Prepare.Model.osep]. f_equal.
+    cbn [sep3 s_word s_syll s_phone Prepare.Model.osep]. cbv zeta. f_equal.
     rewrite render3_eq, !replace_all_go by assumption.
     rewrite min_remove_syll by assumption.
     rewrite min_remove_phone_w by assumption.
-    rewrite replace_go_terminated; [|exact Hxw|].
-    2:{ apply Forall_map. apply Forall_forall. intros w Hw. apply free_only_at_end.
-        apply free_concat.
-        pose proof (phones_of_nested (free xw) t Hfw) as N. rewrite Forall_forall in N.
-        apply Forall_concat. now apply N. }
     rewrite words_of_concat.
     rewrite <- !replace_all_go by assumption.
-    apply norm_ws_terminated.
+    apply gold_tail.
+    - exact Hxw.
     - exact (tree_ok_words_tok _ _ _ _ Ht).
+    - apply free_words_only_at_end. now apply phones_of_nested.
     - repeat apply replace_all_ws_only; try exact Hws; try apply ws_only_nil; apply ws_only_sp.
   Qed.
 
@@ -947,14 +1022,256 @@ Theorem gold_text_spec_min (xp xs xw : str) (text : list str) (trees : list utre
   gold text (sep3 xp xs xw) = Ok (map (fun t : utree => join [sp] (words_of t)) trees).
 Proof.
   intros Hxp Hxs Hxw Fsw Fpw H.
-  rewrite (gold_total text (sep3 xp xs xw) xw eq_refl). f_equal.
+  rewrite (gold_total text (sep3 xp xs xw)). f_equal.
   induction H as [|raw text trees Hb _ IH|t ws text trees Hn Ht Hf Hws _ IH].
   - reflexivity.
-  - cbn [map filter]. rewrite (gold_str_blank _ _ _ Hb). cbn [nonempty]. exact IH.
+  - cbn [map filter]. rewrite (gold_str_blank _ _ Hb). cbn [nonempty]. exact IH.
   - cbn [map filter].
-    assert (E : gold_str (sep3 xp xs xw) xw (render (sep3 xp xs xw) t ++ ws)
+    assert (E : gold_str (sep3 xp xs xw) (render (sep3 xp xs xw) t ++ ws)
                 = join [sp] (words_of t)).
     { pose proof (gold_spec_min xp xs xw Hxp Hxs Hxw t Ht ws Fsw Fpw Hf Hws) as G.
-      rewrite (gold_line_some (sep3 xp xs xw) xw _ eq_refl) in G. now injection G. }
+      rewrite gold_line_ok in G. now injection G. }
     rewrite E, (words_join_nonempty xp xs xw t Hn Ht). now rewrite IH.
 Qed.
+
+(* ================= gold on a padded rendering ================= *)
+
+(* Every phone and every separator is followed by one U+0020, e.g. with "-", ";esyll", ";eword":
+   "h - e - ;esyll l - o - ;esyll ;eword ".  The separators given to gold are the unpadded ones. *)
+
+Definition pad1 (ph : str) : str := ph ++ [sp].
+Definition pad_tree (t : utree) : utree := map (map (map pad1)) t.
+Definition render_pad (xp xs xw : str) (t : utree) : str :=
+  render (sep3 (xp ++ [sp]) (xs ++ [sp]) (xw ++ [sp])) (pad_tree t).
+
+(* one replacement over a rendering, the effect on each separator given abstractly *)
+Section ReplaceTreeGen.
+  Variables x new : str.
+  Variables p p' s s' w w' : str.
+  Let R (u : str) : str := replace_go x new u 0.
+  Hypothesis Hp : forall rest : str, R (p ++ rest) = p' ++ R rest.
+  Hypothesis Hs : forall rest : str, R (s ++ rest) = s' ++ R rest.
+  Hypothesis Hw : forall rest : str, R (w ++ rest) = w' ++ R rest.
+
+  Lemma gen_terminated (toks : list str) (rest : str) : Forall (free x) toks ->
+    R (terminated p toks ++ rest) = terminated p' toks ++ R rest.
+  Proof.
+    induction 1 as [|a toks Ha _ IH]; [reflexivity|].
+    rewrite !terminated_cons, <- !app_assoc. unfold R at 1.
+    rewrite replace_go_free by exact Ha. f_equal. fold (R (p ++ terminated p toks ++ rest)).
+    rewrite Hp. f_equal. exact IH.
+  Qed.
+
+  Lemma gen_sylls (wd : list (list str)) (rest : str) : Forall (Forall (free x)) wd ->
+    R (concat (map (render_syll (sep3 p s w)) wd) ++ rest)
+    = concat (map (render_syll (sep3 p' s' w')) wd) ++ R rest.
+  Proof.
+    induction 1 as [|syl wd Hsy _ IH]; [reflexivity|].
+    cbn [map concat]. rewrite !render_syll3, <- !app_assoc.
+    rewrite gen_terminated by exact Hsy. f_equal. rewrite Hs. f_equal. exact IH.
+  Qed.
+
+  Lemma gen_render (t : utree) (rest : str) : Forall (Forall (Forall (free x))) t ->
+    R (render (sep3 p s w) t ++ rest) = render (sep3 p' s' w') t ++ R rest.
+  Proof.
+    induction 1 as [|wd t Hwd _ IH]; [reflexivity|].
+    unfold render in *. cbn [map concat]. unfold render_word at 1 3.
+    cbn [sep3 s_word Render.osep]. rewrite <- !app_assoc.
+    rewrite gen_sylls by exact Hwd. f_equal. rewrite Hw. f_equal. exact IH.
+  Qed.
+End ReplaceTreeGen.
+
+Lemma replace_go_sep_sp (x new rest : str) : x <> [] -> free x [sp] ->
+  replace_go x new ((x ++ [sp]) ++ rest) 0 = (new ++ [sp]) ++ replace_go x new rest 0.
+Proof.
+  intros Hx Hf. rewrite <- !app_assoc. rewrite replace_go_at_sep by exact Hx. f_equal.
+  now apply replace_go_free.
+Qed.
+
+Lemma replace_go_free_sp (x new y rest : str) : free x y -> free x [sp] ->
+  replace_go x new ((y ++ [sp]) ++ rest) 0 = (y ++ [sp]) ++ replace_go x new rest 0.
+Proof. intros Hy Hf. apply replace_go_free. now apply free_app. Qed.
+
+Lemma pad_tree_free (x : str) (t : utree) : free x [sp] ->
+  Forall (Forall (Forall (free x))) t -> Forall (Forall (Forall (free x))) (pad_tree t).
+Proof.
+  intros Hf H. unfold pad_tree. apply Forall_map. eapply Forall_impl; [|exact H].
+  intros wd Hwd. apply Forall_map. eapply Forall_impl; [|exact Hwd].
+  intros syl Hsyl. apply Forall_map. eapply Forall_impl; [|exact Hsyl].
+  intros ph Hph. now apply free_app.
+Qed.
+
+(* str.replace(' ', '') deletes the spaces *)
+Lemma replace_sp_despace (u : str) : replace_all [sp] [] u = despace u.
+Proof.
+  cbn [replace_all]. induction u as [|c u IH]; [reflexivity|].
+  rewrite replace_go_0_cons. cbn [prefix_b length Nat.sub app despace filter].
+  rewrite N.eqb_sym. destruct (c =? sp)%N; cbn [andb negb]; [exact IH|]. f_equal. exact IH.
+Qed.
+
+(* a word once the syllable and phone separators are gone: phones and spaces *)
+Definition pad_body (wd : list (list str)) : str :=
+  concat (map (render_syll (sep3 [sp] [sp] [])) (map (map pad1) wd)).
+
+Lemma pad_shape (xw : str) (t : utree) :
+  render (sep3 [sp] [sp] (xw ++ [sp])) (pad_tree t)
+  = concat (map (fun wd : list (list str) => pad_body wd ++ xw ++ [sp]) t).
+Proof.
+  unfold render, pad_tree. rewrite map_map. f_equal.
+Qed.
+
+Lemma despace_sp_syll (syl : list str) : Forall (fun ph : str => ~ In sp ph) syl ->
+  despace (render_syll (sep3 [sp] [sp] []) (map pad1 syl)) = concat syl.
+Proof.
+  intros H. rewrite render_syll3, despace_app. cbn [despace filter N.eqb negb].
+  change (filter _ [sp]) with (@nil char). rewrite app_nil_r.
+  induction H as [|ph syl Hph _ IH]; [reflexivity|].
+  cbn [map]. rewrite terminated_cons, !despace_app, IH. unfold pad1.
+  rewrite despace_app, (despace_no_sp ph Hph).
+  change (despace [sp]) with (@nil char). now rewrite !app_nil_r.
+Qed.
+
+Lemma despace_pad_body (wd : list (list str)) :
+  Forall (Forall (fun ph : str => ~ In sp ph)) wd -> despace (pad_body wd) = word_plain wd.
+Proof.
+  unfold pad_body, word_plain, syll_plain.
+  induction 1 as [|syl wd Hsyl _ IH]; [reflexivity|].
+  cbn [map concat]. now rewrite despace_app, despace_sp_syll, IH.
+Qed.
+
+Lemma free_pad_body (x : str) (wd : list (list str)) : free x [sp] ->
+  Forall (Forall (free x)) wd -> free x (pad_body wd).
+Proof.
+  intros Hf H. unfold pad_body. apply free_concat. apply Forall_map. apply Forall_map.
+  eapply Forall_impl; [|exact H]. intros syl Hsyl. rewrite render_syll3.
+  apply free_app; [|exact Hf]. apply free_terminated; [exact Hf|].
+  apply Forall_map. eapply Forall_impl; [|exact Hsyl]. intros ph Hph. now apply free_app.
+Qed.
+
+(* splitting on the word separator when each one is followed by a space: the space goes
+   to the front of the next piece *)
+Lemma split_go_padded (xw : str) (Ws : list str) (rest : str) : xw <> [] -> free xw [sp] ->
+  Forall (fun W : str => only_at_end xw W = true) Ws ->
+  forall acc : str,
+  split_go xw (concat (map (fun W : str => W ++ xw ++ [sp]) Ws) ++ rest) 0 acc
+  = match Ws with
+    | [] => split_go xw rest 0 acc
+    | W :: Ws' => (rev acc ++ W) :: map (fun V : str => [sp] ++ V) Ws' ++ split_go xw rest 0 [sp]
+    end.
+Proof.
+  intros Hxw Hf H. induction H as [|W Ws HW _ IH]; intros acc; [reflexivity|].
+  cbn [map concat]. rewrite <- !app_assoc.
+  rewrite only_at_end_split_go by assumption. f_equal.
+  cbn [app]. rewrite split_go_0_cons.
+  pose proof (free_head xw [] (concat (map (fun W0 : str => W0 ++ xw ++ [sp]) Ws) ++ rest) sp Hf) as P.
+  cbn [app] in P. rewrite P. rewrite IH.
+  destruct Ws as [|V Ws]; reflexivity.
+Qed.
+
+Section GoldPad.
+  Variables xp xs xw : str.
+  Hypothesis Hxp : xp <> [].
+  Hypothesis Hxs : xs <> [].
+  Hypothesis Hxw : xw <> [].
+  (* no separator begins with a space *)
+  Hypothesis Hhp : hd_error xp <> Some sp.
+  Hypothesis Hhs : hd_error xs <> Some sp.
+  Hypothesis Hhw : hd_error xw <> Some sp.
+  Hypothesis Fsp : free xs xp.
+  Hypothesis Fsw : free xs xw.
+  Hypothesis Fpw : free xp xw.
+
+  Variable t : utree.
+  Hypothesis Hsh : tree_shape t.
+  Hypothesis Hfree : Forall (phone_free xp xs xw) (phones_of t).
+
+  Lemma shape_words_tok : Forall tok_ok (words_of t).
+  Proof.
+    unfold words_of. apply Forall_map. eapply Forall_impl; [|exact Hsh].
+    intros wd (Hn & Hs). unfold word_plain, syll_plain. apply concat_tok_ok.
+    - destruct wd; [congruence|discriminate].
+    - apply Forall_map. eapply Forall_impl; [|exact Hs]. intros syl (Hsn & Hp).
+      now apply concat_tok_ok.
+  Qed.
+
+  Lemma shape_no_sp : Forall (Forall (Forall (fun ph : str => ~ In sp ph))) t.
+  Proof.
+    eapply Forall_impl; [|exact Hsh]. intros wd (_ & Hs).
+    eapply Forall_impl; [|exact Hs]. intros syl (_ & Hp).
+    eapply Forall_impl; [|exact Hp]. intros ph (_ & Hw). now apply ws_free_not_sp.
+  Qed.
+
+  Theorem gold_pad_spec : forall ws : str, ws_only ws ->
+    gold_line (sep3 xp xs xw) (render_pad xp xs xw t ++ ws) = Ok (join [sp] (words_of t)).
+  Proof.
+    intros ws Hws. unfold gold_line, render_pad.
+    cbn [sep3 s_word s_syll s_phone Prepare.Model.osep]. cbv zeta. f_equal.
+    pose proof (free_sp_hd xp Hxp Hhp) as Sp.
+    pose proof (free_sp_hd xs Hxs Hhs) as Ss.
+    pose proof (free_sp_hd xw Hxw Hhw) as Sw.
+    pose proof (nested_p xp xs xw t Hfree) as Np.
+    pose proof (nested_s xp xs xw t Hfree) as Ns.
+    pose proof (nested_w xp xs xw t Hfree) as Nw.
+    (* the syllable separator *)
+    rewrite (replace_all_go xs) by exact Hxs.
+    rewrite (gen_render xs [] (xp ++ [sp]) (xp ++ [sp]) (xs ++ [sp]) ([] ++ [sp])
+               (xw ++ [sp]) (xw ++ [sp])).
+    2:{ intros rest. now apply replace_go_free_sp. }
+    2:{ intros rest. now apply replace_go_sep_sp. }
+    2:{ intros rest. now apply replace_go_free_sp. }
+    2:{ now apply pad_tree_free. }
+    (* the phone separator *)
+    rewrite (replace_all_go xp) by exact Hxp.
+    rewrite (gen_render xp [] (xp ++ [sp]) ([] ++ [sp]) ([] ++ [sp]) ([] ++ [sp])
+               (xw ++ [sp]) (xw ++ [sp])).
+    2:{ intros rest. now apply replace_go_sep_sp. }
+    2:{ intros rest. now apply replace_go_free. }
+    2:{ intros rest. now apply replace_go_free_sp. }
+    2:{ now apply pad_tree_free. }
+    cbn [app]. rewrite pad_shape.
+    (* the split *)
+    rewrite <- (map_map pad_body (fun W : str => W ++ xw ++ [sp])).
+    unfold split_on. rewrite split_go_padded; [|exact Hxw|exact Sw|].
+    2:{ apply Forall_map. eapply Forall_impl; [|exact Nw]. intros wd Hwd.
+        apply free_only_at_end. now apply free_pad_body. }
+    set (rest := replace_go xp [] (replace_go xs [] ws 0) 0).
+    assert (Hrest : ws_only rest).
+    { unfold rest. apply ws_only_forallb. apply replace_go_space; [reflexivity|].
+      apply replace_go_space; [reflexivity|]. now apply ws_only_forallb. }
+    assert (Hpieces : forall acc : str, ws_only acc ->
+              Forall ws_only (map (replace_all [sp] []) (split_go xw rest 0 acc))).
+    { intros acc Hacc. apply Forall_map. eapply Forall_impl.
+      2:{ apply split_go_ws_only; [exact Hrest|exact Hacc]. }
+      intros a Ha. apply replace_all_ws_only; [apply ws_only_nil|exact Ha]. }
+    assert (E : exists pieces : list str, Forall ws_only pieces /\
+              map (replace_all [sp] [])
+                (match map pad_body t with
+                 | [] => split_go xw rest 0 []
+                 | W :: Ws' => (rev [] ++ W) :: map (fun V : str => [sp] ++ V) Ws' ++ split_go xw rest 0 [sp]
+                 end) = words_of t ++ pieces).
+    { pose proof shape_no_sp as Hns. unfold words_of.
+      destruct Hns as [|wd t' Hwd Ht'].
+      - cbn [map app]. eexists. split; [apply Hpieces, ws_only_nil|reflexivity].
+      - cbn [map rev app]. eexists. split; [apply (Hpieces [sp]), ws_only_sp|].
+        rewrite map_app. cbn [map]. f_equal.
+        + rewrite replace_sp_despace. now apply despace_pad_body.
+        + f_equal. rewrite !map_map. apply map_ext_Forall.
+          eapply Forall_impl; [|exact Ht']. intros wd' Hwd'. cbn beta.
+          rewrite replace_sp_despace.
+          change (sp :: pad_body wd') with ([sp] ++ pad_body wd').
+          rewrite despace_app. change (despace [sp]) with (@nil char). cbn [app].
+          now apply despace_pad_body. }
+    destruct E as (pieces & Hp & E). rewrite E.
+    destruct (join_app_ws (words_of t) pieces Hp) as (w & Hw & E2).
+    rewrite E2. apply norm_ws_join_ws; [exact shape_words_tok|exact Hw].
+  Qed.
+End GoldPad.
+
+Definition pd_p : str := [45]%N.                                   (* "-" *)
+Example pad_example :
+  render_pad pd_p ex_s ex_w [[[[104]; [101]]; [[108]; [111]]]]%N
+  = [104;32;45;32;101;32;45;32;59;101;115;121;108;108;32;
+     108;32;45;32;111;32;45;32;59;101;115;121;108;108;32;59;101;119;111;114;100;32]%N
+  /\ gold_line (sep3 pd_p ex_s ex_w) (render_pad pd_p ex_s ex_w ex_t)
+     = Ok (join [sp] (words_of ex_t)).
+Proof. vm_compute. split; reflexivity. Qed.
